@@ -115,6 +115,7 @@ type muxCfg struct {
 	Kind string `json:"kind,omitempty"`
 	// (TCP mux model) Preset events are applied before the search starts and do not count towards the depth; StopRead
 	// adds "client i stops / resumes reading" to the alphabet (with a small write buffer, so that it fills up)
+	ReadBuf  int      `json:"read_buf,omitempty"` // (TCP mux model) packets a connection queues for its readers; 0 = 16
 	Preset   []string `json:"preset,omitempty"`
 	StopRead bool     `json:"stop_read,omitempty"`
 }
